@@ -113,6 +113,24 @@ class NativeBuilder:
         import astropy.units as u
         return Angle(self.real(name) * u.rad).to(getattr(u, unit))
 
+    def wcs(self, name, frame='icrs'):
+        """a concrete rotated TAN WCS for replays (rotation / scale / reference taken from the model where present)"""
+        import numpy as np
+        from astropy.wcs import WCS
+        w = WCS(naxis=2)
+        rot = float(self._get(name + '.rot', 0.3))
+        scale = abs(float(self._get(name + '.scale', 0.0))) or 2.0e-4
+        ctype = {'icrs': ('RA---TAN', 'DEC--TAN'), 'fk5': ('RA---TAN', 'DEC--TAN'), 'galactic': ('GLON-TAN', 'GLAT-TAN')}.get(frame, ('RA---TAN', 'DEC--TAN'))
+        w.wcs.ctype = list(ctype)
+        w.wcs.crval = [float(self._get(name + '.lon0', 40.0)), float(self._get(name + '.lat0', 30.0))]
+        w.wcs.crpix = [50.0, 60.0]
+        c, s = np.cos(rot), np.sin(rot)
+        w.wcs.cd = np.array([[-scale * c, scale * s], [scale * s, scale * c]])
+        if frame == 'fk5':
+            w.wcs.radesys = 'FK5'
+            w.wcs.equinox = 2000.0
+        return w
+
     def construct(self, clsref, label, *args, **kw):
         cls = resolve(clsref) if isinstance(clsref, str) else clsref
         return cls(*args, **kw)
